@@ -306,6 +306,25 @@ def doAct (P : Prog) (id : Nat) (s : St) : St :=
     | some k => if s.ps.length < 12 then { s with ps := s.ps ++ [s.hdr.getD k 0] } else s
     | none => { s with err := true }
   | [13, _, _, _, _, _] => runPs id s
+  | [15, k, _site, x, _, _] =>
+    -- sk<k>_<site>(id, x): the value `val_k(x)` reaches an interface-typed target through an IMPLICIT conversion at
+    -- assignability site `site`; `obs` prints its dynamic type (type switch), a number read back from it, and whether the
+    -- type assertion / `== interface{}(val)` hold. Whatever the site, Go boxes the value: the line only depends on k and x.
+    let n := s.get x
+    let (kind, v) : String × Int := match k with
+      | 0 => ("int", n)
+      | 1 => ("string", n.emod 4 + 1)
+      | 2 => ("bool", n.emod 2)
+      | 3 => ("float64", n)
+      | 4 => ("myInt", n)
+      | 5 => ("uint8", n.emod 256)
+      | 6 => ("arr", n)
+      | 7 => ("map", n)
+      | 8 => ("fn", 0)
+      | 9 => ("chan", 2)
+      | 10 => ("P", n)
+      | _ => ("ptrS", n)
+    s.print s!"v {id} {kind} {v} true"
   | [14, dst, x, op, cs, ty] =>
     -- { u := T(uint32(x)*2654435761 + 0x9E3779B9); r := u op C (or C op u); useT(id, r, C); dst = int(r % 251) }
     let w := uWidth ty
